@@ -258,8 +258,21 @@ def validate_trace(module, trace, cfg=None, timeout=900, deque=False, xmx='8g', 
 # traces: executions separated by {"e":"reset"} lines
 # ---------------------------------------------------------------------------------------------------------------------
 def read_lines(path):
-    with open(path) as f:
-        return [ln.rstrip('\n') for ln in f if ln.strip()]
+    """Lines of a recorded trace. A line that is not a JSON object (a driver whose memory was corrupted by the code under
+    test writes such lines) is replaced by a {"e":"garbage"} event, which no trace specification accepts."""
+    out = []
+    with open(path, errors='replace') as f:
+        for ln in f:
+            ln = ln.rstrip('\n')
+            if not ln.strip():
+                continue
+            try:
+                if not isinstance(json.loads(ln), dict):
+                    raise ValueError
+            except ValueError:
+                ln = json.dumps({'e': 'garbage', 'raw': ln[:200]}, separators=(',', ':'))
+            out.append(ln)
+    return out
 
 
 def split_executions(lines, reset_key='"e":"reset"'):
